@@ -4,7 +4,7 @@
    point of a second pass; the Python-level replication laws are decided by the correspondence/oracle
    run (DESIGN §7 C09). *)
 From OptreeModel Require Import Base Tree Flatten Unflatten Spec Construct Ops JoinArr.
-From OptreeProofs Require Import SpecProofs OrderProofs PrefixOrder JoinOrder JoinLeast FlattenGood PrefixAntisym JoinFold JoinArrProofs Subst BroadcastProofs.
+From OptreeProofs Require Import SpecProofs OrderProofs PrefixOrder JoinOrder JoinLeast FlattenGood PrefixAntisym JoinFold JoinArrProofs Subst JoinRealise BroadcastProofs PrefixAntisym BroadcastEquiv.
 
 (* a leaf is replaced by the other operand's subtree, whichever side it is on *)
 Theorem C09_join_leaf_l : forall b, st_join st_leaf b = Ok b.
@@ -175,6 +175,93 @@ Theorem C09_broadcast_prefix_leaves :
       Ok (concat (map (fun xq => repeat (fst xq) (length (fst (snd xq)))) (combine lsp rs))).
 Proof. exact broadcast_prefix_spec. Qed.
 Print Assumptions C09_broadcast_prefix_leaves.
+
+(* THE COMMON SUFFIX IS THE TREESPEC OF A TREE: whenever the treespecs of two trees broadcast, there is
+   a well-formed tree whose treespec is the common suffix (built from the operands' own containers) —
+   so tree_broadcast_common can always build the tree it matches the operands against *)
+Theorem C09_common_suffix_is_realisable :
+  forall c, c_pred c = None -> forall fuel o1 o2 ls1 t1 b1 ls2 t2 b2 j,
+    wf_obj o1 = true -> wf_obj o2 = true ->
+    tflat c fuel o1 = Ok (ls1, t1, b1) -> tflat c fuel o2 = Ok (ls2, t2, b2) -> st_join t1 t2 = Ok j ->
+    exists oj, wf_obj oj = true /\ exists lsj bj, tflat c fuel oj = Ok (lsj, j, bj).
+Proof. exact join_realise. Qed.
+Print Assumptions C09_common_suffix_is_realisable.
+
+(* tree_broadcast_common(t, o): whenever the two treespecs broadcast, it succeeds; the tree it builds
+   from the common suffix flattens to exactly that treespec (sentinel leaves), and each result is
+   tree_broadcast_prefix of the operand against that tree — so C09_tree_broadcast_prefix_replicates
+   describes both results: leaves replicated per subtree, the operand's own node types and key order
+   above, the common structure below *)
+Theorem C09_tree_broadcast_common :
+  forall c t o ls1 sp1 s1 ls2 sp2 s2 cs,
+    c_pred c = None -> wf_obj t = true -> wf_obj o = true ->
+    flatten c t = Ok (ls1, sp1) -> sspec_of sp1 = Some s1 ->
+    flatten c o = Ok (ls2, sp2) -> sspec_of sp2 = Some s2 ->
+    ss_broadcast s1 s2 = Ok cs ->
+    exists ctree spc b1 b2,
+      wf_obj ctree = true /\
+      flatten c ctree = Ok (repeat sentinel (st_leaves (stree_of cs)), spc) /\ trav spc = encode (stree_of cs) /\
+      tree_broadcast_common c t o = Ok (b1, b2) /\
+      tree_broadcast_prefix c t ctree = Ok b1 /\ tree_broadcast_prefix c o ctree = Ok b2.
+Proof. exact tree_broadcast_common_spec. Qed.
+Print Assumptions C09_tree_broadcast_common.
+
+(* THE LATTICE LAWS of property C09, up to the dict-kind / key-order / maxlen equivalence
+   (st_prefix x y = (true, true) both ways): independent of the argument order, idempotent, and equal
+   to the other operand when one operand is already a prefix of it *)
+Theorem C09_join_commutes_up_to_equivalence :
+  forall a b j, good a = true -> good b = true -> st_join a b = Ok j ->
+  exists j', st_join b a = Ok j' /\ st_prefix j j' = (true, true) /\ st_prefix j' j = (true, true).
+Proof. exact join_comm_equiv. Qed.
+Print Assumptions C09_join_commutes_up_to_equivalence.
+
+Theorem C09_join_idempotent :
+  forall a, good a = true -> exists j, st_join a a = Ok j /\ st_prefix a j = (true, true) /\ st_prefix j a = (true, true).
+Proof. exact join_idem_equiv. Qed.
+Print Assumptions C09_join_idempotent.
+
+Theorem C09_join_of_prefix_is_the_other_operand :
+  forall a b, good a = true -> good b = true -> fst (st_prefix a b) = true ->
+  exists j, st_join a b = Ok j /\ st_prefix b j = (true, true) /\ st_prefix j b = (true, true).
+Proof. exact join_prefix_equiv. Qed.
+Print Assumptions C09_join_of_prefix_is_the_other_operand.
+
+(* THE RESULT HAS THE STRUCTURE OF THE FULL TREE: tree_broadcast_prefix(p, full) returns a well-formed tree
+   whose leaves are the prefix's leaves replicated and whose treespec is equivalent to the treespec of
+   `full` (st_prefix both ways with every leaf matched: the same tree up to dict kind / key order /
+   maxlen, p's own node types and key order above) *)
+Theorem C09_broadcast_prefix_result_has_full_structure :
+  forall c p full lsp spp s subs rs lf spf,
+    c_pred c = None -> wf_obj p = true -> wf_obj full = true ->
+    flatten c p = Ok (lsp, spp) -> sspec_of spp = Some s ->
+    ss_flatten_up_to (c_reg c) s full = Ok subs ->
+    Forall2 (fun sub r => flatten c sub = Ok r) subs rs ->
+    flatten c full = Ok (lf, spf) ->
+    exists r t' tf b,
+      tree_broadcast_prefix c p full = Ok r /\ wf_obj r = true /\
+      tflat c (S (c_limit c) + S (c_limit c)) r =
+        Ok (concat (map (fun xq => repeat (fst xq) (length (fst (snd xq)))) (combine lsp rs)), t', b) /\
+      decode (trav spf) = Some tf /\ E t' tf.
+Proof. exact tree_broadcast_prefix_structure. Qed.
+Print Assumptions C09_broadcast_prefix_result_has_full_structure.
+
+(* BOTH RESULTS OF tree_broadcast_common HAVE THE COMMON STRUCTURE: whenever the treespecs of t and o
+   broadcast to cs, tree_broadcast_common(t, o) returns two well-formed trees whose treespecs are both
+   equivalent (E) to cs, with exactly as many leaves as cs has *)
+Theorem C09_broadcast_common_results_share_the_common_structure :
+  forall c t o ls1 sp1 s1 ls2 sp2 s2 cs,
+    c_pred c = None -> wf_obj t = true -> wf_obj o = true ->
+    flatten c t = Ok (ls1, sp1) -> sspec_of sp1 = Some s1 ->
+    flatten c o = Ok (ls2, sp2) -> sspec_of sp2 = Some s2 ->
+    ss_broadcast s1 s2 = Ok cs ->
+    exists b1 b2 l1 t1' bb1 l2 t2' bb2,
+      tree_broadcast_common c t o = Ok (b1, b2) /\ wf_obj b1 = true /\ wf_obj b2 = true /\
+      tflat c (S (c_limit c) + S (c_limit c)) b1 = Ok (l1, t1', bb1) /\
+      tflat c (S (c_limit c) + S (c_limit c)) b2 = Ok (l2, t2', bb2) /\
+      E t1' (stree_of cs) /\ E t2' (stree_of cs) /\
+      length l1 = st_leaves (stree_of cs) /\ length l2 = st_leaves (stree_of cs).
+Proof. exact tree_broadcast_common_structure. Qed.
+Print Assumptions C09_broadcast_common_results_share_the_common_structure.
 
 Example C09_example :
   let c := {| c_nil := false; c_ns := 1; c_pred := None;
